@@ -105,6 +105,8 @@ SAFE_ATTRS = {
     'setdefault', 'strftime', 'weekday', 'fromisoformat', 'groups', 'group', 'extend',
     # audited library entry points
     'search', 'sub', 'compile', 'ratio', 'stdev', 'dump',
+    # generator.close(): runs the finally blocks of the evaluator's own generator (no I/O: open() is outside every table)
+    'close',
 }
 FORBIDDEN_NODE_TYPES = {'Lambda', 'FunctionDef', 'AsyncFunctionDef', 'ClassDef', 'Import', 'ImportFrom', 'Global', 'Nonlocal', 'JoinedStr',
                         'FormattedValue', 'Starred', 'keyword', 'Await', 'Yield', 'YieldFrom', 'Dict', 'Set', 'List', 'Tuple', 'DictComp',
@@ -125,7 +127,9 @@ def structural(tier, res):
             fi = find_function(q)
             res.functions[q] = fi.describe()
             allowed_names = set(SAFE_NAMES)
-            allowed_attrs = set(SAFE_ATTRS)
+            # methods defined in the four classes are callees under this same clause (the closure is over the classes, so extracting a helper
+            # method is not an alarm: the helper gets its own calls / assigns clauses); everything else must be in the audited table
+            allowed_attrs = set(SAFE_ATTRS) | {m.name for c in classes for m in mod.classes[c].body if isinstance(m, ast.FunctionDef)}
             computed_ok = False
             if n.name == 'evaluate':
                 # audited dispatch pattern:  method = f'_eval_{type(node).__name__}';  getattr(self, method)(node)
